@@ -126,6 +126,97 @@ def whitespace_variants(toks):
     return out
 
 
+# ------------------------------------------------------------ the NAME alphabet
+#
+# The documentation defines a named axis by "any identifier"; the reference reads
+# that as str.isidentifier().  The alphabet below is chosen so that every OTHER
+# plausible notion of "name" (Python's expression grammar, ASCII-only regexes,
+# keyword tables, numeric-literal parsers, NFKC normalisation) disagrees with
+# str.isidentifier() on at least one member.
+
+
+def _kw():
+    import keyword
+
+    return list(keyword.kwlist), list(keyword.softkwlist)
+
+
+HARD_KEYWORDS, SOFT_KEYWORDS = _kw()  # 35 reserved words (incl. None/True/False); '_', 'case', 'match', 'type'
+BUILTIN_NAMES = ["len", "min", "max", "abs", "sum", "int", "float", "print", "eval", "object", "Ellipsis", "NotImplemented", "__debug__"]
+NONASCII_NAMES = [
+    "α",  # Greek
+    "名前",  # CJK (category Lo)
+    "ñ",  # ASCII letter + combining mark (XID_Continue)
+    "ℌ",  # NFKC-normalises to 'H' in Python source, but is its own identifier as a string
+    "ĳ",  # ligature, NFKC -> 'ij'
+    "µ",  # micro sign, NFKC -> Greek mu
+    "ª",  # feminine ordinal (Lo)
+    "a·b",  # middle dot: XID_Continue only
+    "𝐱",  # astral plane (mathematical bold x)
+    "x१",  # Devanagari digit continuing an identifier
+]
+ASCII_NAMES = ["A", "a1", "a_b", "x_", "nan", "inf", "e5", "j", "l", "O0"]  # look like float / exponent / imaginary literals to other parsers
+NAMES = HARD_KEYWORDS + SOFT_KEYWORDS + BUILTIN_NAMES + NONASCII_NAMES + ASCII_NAMES
+# one or two members of every class: used where the full modifier product (with repeats
+# and `doc=` positions) or a product of tokens is taken
+NAMES_REPR = ["in", "class", "None", "lambda", "match", "type", "len", "min", "α", "ñ", "ℌ", "nan"]
+NAMES_REPR6 = ["in", "None", "class", "match", "len", "α"]
+
+
+def mod_perms():
+    """every subset of the four modifier characters in every order (65 strings, no repeats)"""
+    out = []
+    for k in range(len(MODS) + 1):
+        out += ["".join(p) for p in itertools.permutations(MODS, k)]
+    return out
+
+
+def name_tokens(tier: str):
+    """-> (tokens over the NAME alphabet, doc-position tokens): every name in every
+    modifier combination in every order, without and with a leading `doc=`; the
+    representative names additionally under the complete modifier-string product (with
+    repeats, `doc=` inside)."""
+    out, seen = [], set()
+
+    def add(t):
+        if t not in seen:
+            seen.add(t)
+            out.append(t)
+
+    for n in NAMES:
+        for m in mod_perms():
+            add(m + n)
+            add("doc=" + m + n)
+            if tier != "quick":
+                add(m + "doc=" + n)
+    if tier == "quick":
+        for t in tokens(3, "ends", NAMES_REPR):
+            add(t)
+    else:
+        for t in tokens(4, "all", NAMES_REPR):
+            add(t)
+        for t in tokens(3, "ends", NAMES):
+            add(t)
+    return out
+
+
+def name_pairs(tier: str):
+    """two-token specs whose tokens are names (keywords, builtins, non-ASCII) with at
+    most one modifier."""
+    names = NAMES_REPR6 if tier == "quick" else NAMES_REPR
+    mods = ["", "#", "*", "?"] if tier == "quick" else ["", "#", "*", "_", "?"]
+    toks = [m + n for n in names for m in mods]
+    return [f"{x} {y}" for x in toks for y in toks]
+
+
+def name_docs():
+    """names (keywords, ...) in the `name=` documentation-prefix position"""
+    out = []
+    for n in NAMES:
+        out += [f"{n}=a", f"{n}=3", f"#{n}=a", f"{n}=*a", f"{n}=_", f"{n}=..."]
+    return out
+
+
 # fixed lists of documented illegal forms that the token product does not reach
 COMMA_FORMS = ["a,b", "a, b", "a ,b", "a,", ",a", "3,4", "a,b c", "#a,*b", "a,b,c", "_,_", "...,a", "a b,c d"]
 # a comma-separated token NEXT TO a token that legitimately contains a bracketed comma (a function
